@@ -48,8 +48,22 @@ def jobs(tier, seed):
     return out
 
 
+def run_history(job, ob):
+    """concrete leg: the real problem with the real special functions, built after sibling instances in this process,
+    evaluated by the same independent computation the replays use"""
+    shipped.BUILT_SIBLINGS.clear()
+    ok, msg = replay(dict(job=job, cex=dict(p=0.3), obligation=job.get("main_obligation", "")))
+    ob.extra["siblings_built"] = len(shipped.BUILT_SIBLINGS)
+    ob.prove("siblings-were-built", [], len(shipped.BUILT_SIBLINGS) > 0, kind="history leg is not vacuous", cex=lambda m: dict(history=True))
+    ob.prove("holds-after-sibling-instances", [], not ok, cex=lambda m: dict(history=True, p=0.3, msg=msg),
+             kind="the property's concrete evaluation on an instance created after sibling instances")
+    return ob.result()
+
+
 def run_job(job):
     ob = Obligations(job, default_timeout_ms=120000)
+    if job.get("history"):
+        return run_history(job, ob)
     return {"forest": run_forest, "de_moor": run_de_moor, "mirjalili": run_mirjalili, "hendrix": run_hendrix, "init0": run_init0}[job["problem"]](job, ob)
 
 
@@ -141,6 +155,9 @@ def run_hendrix(job, ob):
     hs = probkit.HendrixSym(job["m"], job["Qa"], job["Qb"])
     pb = hs.pb
     K = hs.K
+    ob.prove("truncation-point==documented", [], hs.K_code == hs.K, kind="Hendrix demand truncation point == max_useful_life * (max(order limits) + 2)",
+             cex=lambda mm: dict(problem="hendrix", job={k: job[k] for k in ("m", "Qa", "Qb")}, stock=[0, 0], K_code=hs.K_code, K_doc=hs.K))
+    K = max(hs.K, hs.K_code)
     sub = [(BIN(x, x), 1 - sum(BIN(u, x) for u in range(x)) if x > 0 else z3.RealVal(1)) for x in range(K + 1)]
     for sa in range(pb.max_stock_a + 1):
         for sb in range(pb.max_stock_b + 1):
@@ -178,6 +195,9 @@ def replay(data):
     """compare the real problem (real special functions) with an independent scipy computation"""
     import scipy.stats as st
     job = data["job"]
+    if job.get("history") and not shipped.HISTORY:
+        with shipped.history():
+            return replay(data)
     p = job["problem"]
     bad = []
     if p == "forest":
@@ -216,17 +236,25 @@ def replay(data):
         ma, mb, sp = 0.8, 0.6, 0.3
         pb = shipped.build("hendrix", max_useful_life=m, max_order_quantity_a=Qa, max_order_quantity_b=Qb, demand_poisson_mean_a=ma, demand_poisson_mean_b=mb,
                            substitution_probability=sp)
+        if data["obligation"].startswith("truncation-point") and int(pb.max_demand) != m * (max(Qa, Qb) + 2):
+            bad.append(("max_demand", int(pb.max_demand), "documented", m * (max(Qa, Qb) + 2)))
         for s in np.asarray(pb.state_space):
             sa, sb = int(s[:m].sum()), int(s[m:].sum())
+            # documented joint distribution of units issued, restricted to the model's documented truncation region
+            # (d_b < K; when B is sold out also d_a + substituted demand <= K), K = max_useful_life * (max(order limits) + 2)
+            K = m * (max(Qa, Qb) + 2)
             ref = np.zeros((pb.max_stock_a + 1, pb.max_stock_b + 1))
-            for da in range(60):
-                for db in range(60):
-                    w_ = st.poisson.pmf(da, ma) * st.poisson.pmf(db, mb)
-                    x = max(db - sb, 0)
+            for db in range(K):
+                if db < sb:
+                    for da in range(200):
+                        ref[min(da, sa), db] += st.poisson.pmf(da, ma) * st.poisson.pmf(db, mb)
+                else:
+                    x = db - sb
                     for u in range(x + 1):
-                        ref[min(da + u, sa), min(db, sb)] += w_ * st.binom.pmf(u, x, sp)
+                        for da in range(K + 1 - u):
+                            ref[min(da + u, sa), sb] += st.poisson.pmf(da, ma) * st.poisson.pmf(db, mb) * st.binom.pmf(u, x, sp)
             got = np.asarray(jax.vmap(pb.random_event_probability, in_axes=(None, None, 0))(jnp.asarray(s), jnp.array([0, 0]), pb.random_event_space)).reshape(ref.shape)
-            if np.abs(got - ref).max() > 1e-4:
+            if np.abs(got - ref).max() > 1e-7:
                 bad.append((s.tolist(), float(np.abs(got - ref).max())))
             iv = float(pb.initial_value(jnp.asarray(s)))
             rev = float((got * (np.arange(ref.shape[0])[:, None] * float(pb.sales_prices[0]) + np.arange(ref.shape[1])[None, :] * float(pb.sales_prices[1]))).sum())
